@@ -25,6 +25,7 @@ static llvm::cl::list<std::string> Outline("outline", llvm::cl::desc("<C-name su
 static llvm::cl::list<std::string> AbstractOnly("abstract", llvm::cl::desc("signature substring of repository functions to emit as contract-only declarations"), llvm::cl::cat(cat));
 static llvm::cl::list<std::string> RecStub("rec-stub", llvm::cl::desc("signature substring: self-recursive calls inside these functions are emitted as calls to <name>__rec (contract stub)"), llvm::cl::cat(cat));
 static llvm::cl::opt<std::string> OutPrefix("o", llvm::cl::desc("output prefix (writes <prefix>.h <prefix>.c <prefix>.json)"), llvm::cl::Required, llvm::cl::cat(cat));
+static llvm::cl::opt<bool> AllocRaises("alloc-raises", llvm::cl::desc("treat allocating std members (reserve, resize, push_back, append, ...) as potentially raising std::bad_alloc: an exception check follows each call"), llvm::cl::cat(cat));
 static llvm::cl::opt<bool> AllowDtorSkip("allow-dtor-skip", llvm::cl::desc("do not abort on locals with non-trivial repository destructors (listed in json)"), llvm::cl::cat(cat));
 static llvm::cl::opt<bool> Inventory("inventory", llvm::cl::desc("only list variables with static storage duration (C19)"), llvm::cl::cat(cat));
 
@@ -122,7 +123,7 @@ public:
       InventoryVisitor V(ctx); V.TraverseDecl(ctx.getTranslationUnitDecl());
       std::ofstream j(OutPrefix + ".json"); j << "{\"statics\": [\n"; for (size_t i = 0; i < V.out.size(); ++i) j << "  " << V.out[i] << (i + 1 < V.out.size() ? ",\n" : "\n"); j << "],\n\"accesses\": [\n"; for (size_t i = 0; i < V.acc.size(); ++i) j << "  " << V.acc[i] << (i + 1 < V.acc.size() ? ",\n" : "\n"); j << "]}\n"; return;
     }
-    Emitter E(ctx); E.allowDtorSkip = AllowDtorSkip;
+    Emitter E(ctx); E.allowDtorSkip = AllowDtorSkip; E.allocRaises = AllocRaises;
     for (auto& o : Outline) { auto p = o.rfind(':'); if (p == std::string::npos) { llvm::errs() << "CXX2C ABORT: bad --outline\n"; exit(2); } E.outlineReq.insert({o.substr(0, p), atoi(o.c_str() + p + 1)}); }
     for (auto& a : AbstractOnly) E.abstractOnlyPatterns.insert(a);
     for (auto& a : RecStub) E.recStubPatterns.insert(a);
